@@ -190,9 +190,69 @@ def build_harness():
         raise BuildError("harness build (cargo build --release --offline, --cfg fancy_regex_verif)", out)
 
 
+class ImplHang(Exception):
+    """the real implementation produced no output for STALL_S seconds on one input line"""
+
+    def __init__(self, mode, line):
+        Exception.__init__(self, "implementation does not return: frh %s <<< %s" % (mode, line[:200]))
+        self.mode, self.line = mode, line
+
+
+STALL_S = float(os.environ.get("VERIF_STALL_S", "150"))
+
+
+def _run_lines_watch(exe, mode, lines, extra_args=()):
+    """run the harness on the lines with a watchdog: the harness answers line by line (Rust's
+    stdout is line-buffered), so a line that gets no answer for STALL_S seconds is a hang of the
+    implementation on that input - raised as ImplHang, never waited out"""
+    import threading
+    res = []
+    while len(res) < len(lines):
+        rest = lines[len(res):]
+        p = subprocess.Popen([exe, mode, *extra_args], stdin=subprocess.PIPE, stdout=subprocess.PIPE,
+                             stderr=subprocess.PIPE, text=True, env=ENV)
+        got, last = [], [time.time()]
+
+        def feed():
+            try:
+                p.stdin.write("\n".join(rest) + "\n")
+                p.stdin.close()
+            except Exception:
+                pass
+
+        def read():
+            for l in p.stdout:
+                got.append(l.rstrip("\n"))
+                last[0] = time.time()
+
+        errbuf = []
+        te = threading.Thread(target=lambda: errbuf.append(p.stderr.read()), daemon=True)
+        tf, tr = threading.Thread(target=feed, daemon=True), threading.Thread(target=read, daemon=True)
+        tf.start(); tr.start(); te.start()
+        hung = False
+        while tr.is_alive():
+            tr.join(0.5)
+            if tr.is_alive() and time.time() - last[0] > STALL_S:
+                hung = True
+                p.kill()
+                break
+        p.wait()
+        tr.join(5)
+        res.extend(got[:len(rest)])
+        if hung:
+            raise ImplHang(mode, rest[len(got)] if len(got) < len(rest) else rest[-1])
+        if len(got) < len(rest):
+            te.join(2)
+            err = (errbuf[0] if errbuf else "").strip()[-200:].replace("\n", " ")
+            res.append("CRASH rc=%s %s" % (p.returncode, err))
+    return res
+
+
 def _run_lines(exe, mode, lines, timeout, extra_args=()):
     if not lines:
         return []
+    if exe == FRH:
+        return _run_lines_watch(exe, mode, lines, extra_args)
     p = subprocess.run([exe, mode, *extra_args], input="\n".join(lines) + "\n", stdout=subprocess.PIPE,
                        stderr=subprocess.PIPE, text=True, timeout=timeout, env=ENV)
     out = p.stdout.split("\n")
